@@ -594,7 +594,15 @@ fn opt_allow(rl: &mut Option<RateLimiter>, now: Instant) -> (res: bool)
                      "(!(old(self).draw_target.kind is Multi) ==> exists|t: Instant| #[trigger] drew(old(self).draw_target, final(self).draw_target, true, t, frame_of(*final(self))))"),
                     ("C06-drop-silent-when-hidden", "final(self).draw_target.same_kind(old(self).draw_target) && (old(self).draw_target.hidden() ==> final(self).draw_target.ops() == old(self).draw_target.ops())")]),
         # ---- ProgressBar glue that draws (C18: a failing terminal must not panic)
-        Raw("#[verifier::external_body]\nstruct TickerHandle { _p: core::marker::PhantomData<()> }\n"),
+        Raw("""// R2: Arc<Mutex<Option<Ticker>>> as an opaque handle: whether a steady ticker thread is installed
+#[verifier::external_body]
+struct TickerHandle { _p: core::marker::PhantomData<()> }
+impl TickerHandle {
+    uninterp spec fn installed(&self) -> bool;
+    #[verifier::external_body]
+    fn is_none(&self) -> (r: bool) ensures r == !self.installed() { unimplemented!() }
+}
+"""),
         Decl("src/progress_bar.rs", "struct", "ProgressBar",
              rewrites=[Rw("R2", r"Arc<Mutex<BarState>>", "BarState"), Rw("R2", r"Arc<AtomicPosition>", "AtomicPosition"), Rw("R2", r"Arc<Mutex<Option<Ticker>>>", "TickerHandle")]),
         Fn("src/state.rs", "BarState", "set_tab_width", stub=True,
@@ -603,6 +611,15 @@ fn opt_allow(rl: &mut Option<RateLimiter>, now: Instant) -> (res: bool)
            rewrites=[Rw("R2", r"let mut state = self\.state\(\);", "let state = &mut self.state;")],
            requires=[("target-wf", "old(self).state.draw_target.wf2()")],
            ensures=[("C18-no-panic-on-io-error", "final(self).state.draw_target.wf2()", ["C18"])]),
+        Fn("src/progress_bar.rs", "ProgressBar", "tick_inner", sig_rewrites=[K.SELF_MUT],
+           rewrites=[Rw("R2", r"self\.ticker\.lock\(\)\.unwrap\(\)\.is_none\(\)", "self.ticker.is_none()"),
+                     Rw("R2", r"self\.state\(\)", "self.state", count=1)],
+           requires=[("target-wf", "old(self).state.draw_target.wf2()"), ("clock", "time_ok(now)")],
+           ensures=[("target-wf", "final(self).state.draw_target.wf2()"),
+                    ("C05-C07-position-untouched", "final(self).pos == old(self).pos"),
+                    ("C05-tick-inner-requests-a-draw-unless-a-ticker-runs",
+                     "if old(self).ticker.installed() { final(self).state == old(self).state } "
+                     "else { drew(old(self).state.draw_target, final(self).state.draw_target, old(self).state.state.finished(), now, frame_of(final(self).state)) }")]),
         Fn("src/progress_bar.rs", "ProgressBar", "force_draw", sig_rewrites=[K.SELF_MUT],
            rewrites=[Rw("R2", r"self\.state\(\)", "self.state", count=1)],
            requires=[("target-wf", "old(self).state.draw_target.wf2()")],
